@@ -121,6 +121,12 @@ func genCase(r *hx.Rand, big bool) *Case {
 		}
 	}
 	fileNames := []string{"a.txt", "b.txt", "c.txt", "d.txt"}
+	// "counts" mode: every file was produced with its own -count (6..25), so the cells of one
+	// table have different sample sizes
+	countsMode := r.Chance(1, 4)
+	if countsMode {
+		c.tag("counts")
+	}
 	exactUnit := ""
 	if r.Chance(1, 3) {
 		exactUnit = hx.Pick(r, units)
@@ -134,6 +140,7 @@ func genCase(r *hx.Rand, big bool) *Case {
 			shift = hx.Pick(r, []float64{1, 2, 0.5, 1.25})
 		}
 		cfg := map[string]string{}
+		fileCount := 6 + r.Intn(20)
 		for bi := 0; bi < nblocks; bi++ {
 			// configuration lines of this block
 			for _, k := range cfgKeys {
@@ -171,6 +178,9 @@ func genCase(r *hx.Rand, big bool) *Case {
 				ns := 1 + r.Intn(6)
 				if r.Chance(1, 6) {
 					ns = 6 + r.Intn(6)
+				}
+				if countsMode {
+					ns = fileCount
 				}
 				for s := 0; s < ns; s++ {
 					var l strings.Builder
@@ -280,6 +290,10 @@ func corpusCases() []*Case {
 		mk([]string{"-col", "goos"}, "goos: linux\n\nBenchmarkE 1 5 ns/op\n", "goos: linux\n\nBenchmarkE 1 6 ns/op\n"),
 		// zero baselines and zero/zero
 		mk(nil, "BenchmarkZ 1 0 ns/op\nBenchmarkY 1 0 ns/op\nBenchmarkX 1 4 ns/op\n", "BenchmarkZ 1 0 ns/op\nBenchmarkY 1 3 ns/op\nBenchmarkX 1 8 ns/op\n"),
+		// old/new produced with different -count: cells of different sample sizes in one run
+		mk(nil, rep("BenchmarkA 10 100 ns/op", 6)+rep("BenchmarkB 10 250 ns/op", 9), rep("BenchmarkA 10 101 ns/op", 25)+rep("BenchmarkB 10 240 ns/op", 17)),
+		mk([]string{"-confidence", "0.99"}, rep("BenchmarkA 10 100 ns/op", 7)+rep("BenchmarkB 10 250 ns/op", 12)+rep("BenchmarkC 10 3 ns/op", 20),
+			rep("BenchmarkA 10 101 ns/op", 8)+rep("BenchmarkB 10 240 ns/op", 13)+rep("BenchmarkC 10 4 ns/op", 21)),
 		// exact assumption
 		mk([]string{"-col", "note"}, "Unit text-bytes assume=exact\nnote: before\n\nBenchmarkSize 1 100 text-bytes\nBenchmarkN 1 100 text-bytes\nBenchmarkN 1 101 text-bytes\n\nnote: after\n\nBenchmarkSize 1 105 text-bytes\nBenchmarkN 1 101 text-bytes\n"),
 	}
